@@ -481,7 +481,13 @@ func init() {
 			bound = 3
 		}
 		c.Cov["concurrent_part"] = "stateless exploration (preemption bound 2 quick / 3 thorough) of two publisher threads (A1,A2 through member0; B1 through member1) and a third thread that unsubscribes / subscribes / psubscribes a connection (and then publishes C1) over 2-3 subscriber layouts: exact delivery counts for connections whose subscriptions are stable, 0..1 for the one being changed, nothing after an acknowledged UNSUBSCRIBE, A1 before A2 everywhere, every PUBLISH reply equals the frames written for it"
-		schedmc.RunFamily(c, "C14", bound, 1, 0)
+		shards, maxExecs := 1, 0
+		if c.Tier == "thorough" {
+			// heavy programs are split over 4 workers; a (program, shard) exploration that reaches
+			// 150000 executions stops there and the check reports exhaustive:false
+			shards, maxExecs = 4, 150000
+		}
+		schedmc.RunFamily(c, "C14", bound, shards, maxExecs)
 		max := 60
 		if c.Tier == "thorough" {
 			max = 0
